@@ -742,7 +742,7 @@ func (fr *Frame) localByName(st *State, name string) *Val {
 			best = l
 		}
 	}
-	if best == nil {
+	{
 		// heap-allocated (escaping) locals are Allocs with Heap=true and not in Locals
 		for _, b := range fr.fn.Blocks {
 			for _, in := range b.Instrs {
